@@ -1,37 +1,43 @@
 import FpVerif.Lemmas.ListLoops
 import FpVerif.Lemmas.ListGen
+import FpVerif.Lemmas.ListDen
+import FpVerif.Lemmas.IterPanic
+import FpVerif.Lemmas.ListForced
 /-!
-# C12 (lazy `fp.List` part) — memoised cells are evaluated at most once; the cursor loops of
-# package `list` compute the list folds and stop forcing at the first failure
+# C12 (lazy `fp.List` part) — every list expression evaluates to a heap representation of its
+# denotation; memoised cells are evaluated at most once; the cursor loops of package `list` compute
+# the list folds and stop forcing at the first failure
 
 The model (`Model/LazyList.lean`) keeps the `sync.Once` cells of every `ListAdaptor` in a heap and
-runs the closures of `list.Map`, `FlatMap`, `Combine`, `Zip`, `Scan`, `GenerateFrom`, `Collect`, …
-statement by statement; the oracle executes exactly these definitions.
+runs the closures of `list.Map`, `FlatMap`, `FilterMap`, `Combine`, `Zip`, `ZipWithIndex`, `Scan`,
+`GenerateFrom`, `Collect`, `ReverseSeq` … statement by statement; the oracle executes exactly these
+definitions.
 
 * `memo_*`: forcing a cell that is done returns the stored value and runs nothing — no callback,
   no heap change; forcing a pending cell stores its value.
 * `started_at_most_once`: from the empty heap, whatever expression is built and whatever sequence
-  of operations is executed, every cell's closure has been started at most once (the counter that
-  `forceH`/`forceT`/`forceL` increment when they start a closure never exceeds 1).
+  of operations is executed, every cell's closure has been started at most once.
 * `list_*_eq`: the loops of `list.Fold`, `FoldTry`, `FoldOption`, `FoldError`, `FoldRight`/`Reduce`,
   `ToSeq` — modelled literally with their cursor — terminate on every finite list and equal the
   list computation, for every list representation that satisfies the `fp.List` interface contract
-  `LSim` (instance proved here: `Nil`/`Cons`/`Seq`); `FoldTry`/`FoldOption`/`FoldError` stop with
-  the cursor on the failing element: its tail is never forced.
-
-For the memoised representations (`ListAdaptor` cells in the heap) the contract is proved for
-`GenerateFrom` / `Generate` / `Range` / `RangeClosed` (`generate_lists_satisfy_contract`,
-`range_eval_denote`, with the frame lemmas about heap growth this needs).
-PARTIAL (stated, not proved) for the other closures (`Map`, `FlatMap`, `Combine`, `Zip`, `Scan`,
-`Collect`), i.e.
-
-    theorem eval_denote (e : LExpr) (x : Val) (pure callbacks) :
-      ∃ fuel hp l, eval fuel e x {} lg = (.ok l, hp, _) ∧ ∃ k R, LSim k R ∧ R hp l (e.denote x)
-
-needs a heap-monotonicity (frame) argument over all closure kinds that is not done; it is
-validated instead on every correspondence run: the oracle compares the heap semantics' `ToSeq`
-with `LExpr.denote` (and the Go implementation with both) and would print `model-divergence`.
-`eval_denote_plain` below is the part that needs no heap.
+  `LSim`; `FoldTry`/`FoldOption`/`FoldError` stop with the cursor on the failing element.
+* `eval_denote` (TOTAL, all sixteen constructors of `LExpr`, i.e. also the closures of `Map`,
+  `FlatMap`, `FilterMap`, `Combine`, `Zip`, `ZipWithIndex`, `Scan`, `Collect`, `ReverseSeq`, nested
+  arbitrarily, with sharing): for callbacks that do not panic, `eval e` returns — without panic,
+  `sync.Once` re-entrance or fuel exhaustion, for every fuel ≥ `e.bnd x` — a value that satisfies
+  the interface contract w.r.t. `LExpr.denote e`.  The proof (Lemmas/ListTy, ListTyHeap, ListTot) is a
+  type-soundness argument: a ghost typing `Sty` of the heap assigns every memo cell the value / list
+  it will produce and the fuel forcing it needs; `eval_denote_typed` is the statement for an
+  arbitrary well-typed start heap (so expressions evaluated one after the other share one heap and
+  all stay valid: `typed_values_stay_typed`).
+* `eval_toSeq_eq`, `eval_fold_eq`, `eval_foldTry_eq`, `eval_foldOption_eq`, `eval_foldError_eq`,
+  `eval_foldRight_eq`, `eval_reduce_eq`: end to end — `list.X(eval e)` = the list function on
+  `denote e`, and afterwards every memo cell has been started at most once.
+* `eval_toSeq_twice` (memoisation end to end): a second traversal returns the same list and leaves
+  heap and log unchanged; `fromList_represents`: `iterator.FromList` of any such list is an iterator
+  in the sense of C12/C20.
+* `list_fold_panic`, `list_foldTry_panic`, `eval_fold_panic`: the step function of the fold may
+  panic — the panic propagates, the cursor rests on the element whose step panicked.
 -/
 namespace FpVerif.Spec.C12List
 open FpVerif FpVerif.It FpVerif.LL
@@ -164,28 +170,6 @@ theorem plain_lists_satisfy_contract : LSim 1 (fun _ l xs => plainDen l = some x
 
 example : plainDen (.cons (.int 1) (.seq [.int 2, .int 3])) = some [.int 1, .int 2, .int 3] := rfl
 
-/-- the part of `eval e = denote e` that needs no heap: expressions built from `Empty`, `Of`,
-    `Apply`, `FromOption` evaluate (with fuel beyond their depth) to a value denoting
-    `LExpr.denote`, leaving the heap untouched. -/
-theorem eval_denote_plain_partial (x : Val) (hp : Heap) (lg : Log) :
-    (∀ fuel, LL.eval (fuel + 1) .empty x hp lg = (.ok .nil, hp, lg)) ∧
-    (∀ fuel xs, ∃ l, LL.eval (fuel + 1) (.of xs) x hp lg = (.ok l, hp, lg) ∧
-      plainDen l = some ((LExpr.of xs).denote x)) ∧
-    (∀ fuel o, ∃ l, LL.eval (fuel + 1) (.fromOption o) x hp lg = (.ok l, hp, lg) ∧
-      plainDen l = some ((LExpr.fromOption o).denote x)) ∧
-    (∀ fuel h xs, ∃ l, LL.eval (fuel + 2) (.apply h (.of xs)) x hp lg = (.ok l, hp, lg) ∧
-      plainDen l = some ((LExpr.apply h (.of xs)).denote x)) := by
-  refine ⟨fun fuel => ?_, fun fuel xs => ⟨.seq xs, ?_, rfl⟩, fun fuel o => ?_, fun fuel h xs => ⟨.cons h (.seq xs), ?_, rfl⟩⟩
-  · rw [LL.eval.eq_def]; rfl
-  · rw [LL.eval.eq_def]; rfl
-  · cases o with
-    | none => exact ⟨.nil, by rw [LL.eval.eq_def]; rfl, rfl⟩
-    | some v => exact ⟨.seq [v], by rw [LL.eval.eq_def]; rfl, rfl⟩
-  · rw [LL.eval.eq_def]
-    simp only [bind_apply]
-    rw [LL.eval.eq_def]
-    rfl
-
 /-! ## a memoised representation: `GenerateFrom` -/
 
 /-- The heap cells of `list.GenerateFrom(i, g)` — hence `Generate`, `Range`, `RangeClosed` — satisfy
@@ -218,5 +202,244 @@ theorem fold_range_eq (f : Val → Val → GoM Val) (gf : Val → Val → Val) (
     rw [he] at this; exact this
   have := pres_fold f fuel l z hp lg h1
   rw [hfold] at this; exact this
+
+/-! ## every list expression: `eval e` represents `denote e` -/
+
+/-- the hypothesis on callbacks is satisfiable: any callback that is total w.r.t. SOME function -/
+theorem pure_of_total {f : Val → GoM Val} {g : Val → Val} (h : Total f g) : Total f (pure1 f) := Total.pure1 h
+
+example : (LExpr.zipidx (.flatMap (.map (.range false 0 3) (fun v => do emit "m"; pure v)) 7
+    (.scan (.combine (.argOf 2) (.reverse [.int 1])) (.int 0) (fun a _ => pure a)))).Pure :=
+  ⟨⟨trivial, Total.pure1 (total_emit (fun _ => "m") id)⟩, ⟨trivial, trivial⟩,
+    Total2.pure2 (g := fun a _ => a) (fun _ _ lg => ⟨lg, rfl⟩)⟩
+
+/-- THE theorem, typed form.  For every list expression `e` (all constructors, nested, callbacks
+    that do not panic) and every heap that is well-typed (`WellTyped S hp`: every cell consistent
+    with the ghost typing, no `sync.Once` executing): `eval e` returns normally for every fuel
+    `≥ e.bnd x`, the heap stays well-typed for an extension `S'` of the typing, and the returned value
+    is typed with the expression's denotation. -/
+theorem eval_denote_typed (e : LExpr) (x : Val) (hpure : e.Pure) (S : Sty) (hp : Heap) (hW : WellTyped S hp)
+    (fuel : Nat) (hfuel : e.bnd x ≤ fuel) (lg : Log) :
+    ∃ l S' hp' lg', LL.eval fuel e x hp lg = (.ok l, hp', lg') ∧ WellTyped S' hp' ∧ Ext S S' ∧
+      VDen S' l (.fin (e.denote x)) (e.bnd x) :=
+  eval_typed e x hpure S hp hW fuel hfuel lg
+
+/-- typed values satisfy the interface contract: `IsEmpty`/`Head`/`Tail` return what the denoted
+    list says, whatever part of the cells has been forced already, for every fuel `≥ k`. -/
+theorem typed_lists_satisfy_contract (k : Nat) : LSim k (HeapRep k) := heapRep_lsim k
+
+/-- frame: whatever else happens in the heap (the typing only grows), a typed value stays typed
+    with the same denotation — sharing and aliasing between lists are harmless. -/
+theorem typed_values_stay_typed {S S' : Sty} {l : LV} {d : DenV} {K : Nat} (h : VDen S l d K) (hE : Ext S S') :
+    VDen S' l d K := h.ext hE
+
+/-- the interface operations on a typed value extend the typing (so by `typed_values_stay_typed`
+    they keep every other typed value typed). -/
+theorem typed_ops_extend (S : Sty) (hp : Heap) (hW : WellTyped S hp) (l : LV) (xs : List Val) (k : Nat)
+    (hV : VDen S l (.fin xs) k) (fuel : Nat) (hk : k ≤ fuel) (lg : Log) :
+    (∃ S' hp' lg', LL.isEmpty fuel l hp lg = (.ok xs.isEmpty, hp', lg') ∧ WellTyped S' hp' ∧ Ext S S') ∧
+    (∀ y ys, xs = y :: ys →
+      (∃ S' hp' lg', LL.head fuel l hp lg = (.ok y, hp', lg') ∧ WellTyped S' hp' ∧ Ext S S') ∧
+      (∃ t S' hp' lg', LL.tail fuel l hp lg = (.ok t, hp', lg') ∧ WellTyped S' hp' ∧ Ext S S' ∧
+        VDen S' t (.fin ys) k)) := by
+  refine ⟨?_, ?_⟩
+  · obtain ⟨b, S', hp', lg', e, hP, hb⟩ := (totAll fuel).isEmpty S hp l _ k hW.cons hV hk (hW.quiet k) lg
+    subst hb
+    exact ⟨S', hp', lg', e, hW.post hP, hP.ext⟩
+  · rintro y ys rfl
+    refine ⟨?_, ?_⟩
+    · obtain ⟨v, S', hp', lg', e, hP, hv⟩ := (totAll fuel).head S hp l _ k y hW.cons hV rfl hk (hW.quiet k) lg
+      subst hv
+      exact ⟨S', hp', lg', e, hW.post hP, hP.ext⟩
+    · obtain ⟨t, S', hp', lg', e, hP, ht⟩ := (totAll fuel).tail S hp l _ k hW.cons hV rfl hk (hW.quiet k) lg
+      exact ⟨t, S', hp', lg', e, hW.post hP, hP.ext, ht⟩
+
+/-- THE theorem, contract form (the statement announced as partial in the first round, now total):
+    every lazy-list expression evaluates — for every fuel from `k = e.bnd x` on — to a heap
+    representation that satisfies the interface contract `LSim` for its denotation; and every memo
+    cell has been started at most once. -/
+theorem eval_denote (e : LExpr) (x : Val) (hpure : e.Pure) :
+    ∃ k R, LSim k R ∧ ∀ fuel, k ≤ fuel → ∀ lg, ∃ l hp lg', LL.eval fuel e x {} lg = (.ok l, hp, lg') ∧
+      R hp l (e.denote x) ∧ hp.maxEvals ≤ 1 := by
+  refine ⟨e.bnd x, HeapRep (e.bnd x), heapRep_lsim _, fun fuel hf lg => ?_⟩
+  obtain ⟨l, hp, lg', he, hR, hwf⟩ := eval_rep e x hpure fuel hf lg
+  exact ⟨l, hp, lg', he, hR, WF.maxEvals_le hp hwf⟩
+
+/-! ## end to end: the loops of package `list` on `eval e` -/
+
+/-- `list.ToSeq(e)` (= `Foreach`/`Iterator` order) is `denote e`; every cell forced at most once. -/
+theorem eval_toSeq_eq (e : LExpr) (x : Val) (hpure : e.Pure) (fuel : Nat)
+    (hfuel : e.bnd x + (e.denote x).length < fuel) (lg : Log) :
+    ∃ l hp lg1 hp' lg', LL.eval fuel e x {} lg = (.ok l, hp, lg1) ∧
+      LL.toSeq fuel l [] hp lg1 = (.ok (e.denote x), hp', lg') ∧ hp'.maxEvals ≤ 1 := by
+  obtain ⟨l, hp, lg1, he, hR, hwf⟩ := eval_rep e x hpure fuel (by omega) lg
+  obtain ⟨hp', lg', h⟩ := list_toSeq_eq (heapRep_lsim _) hp l _ hR fuel hfuel lg1
+  refine ⟨l, hp, lg1, hp', lg', he, h, WF.maxEvals_le _ ?_⟩
+  have := pres_toSeq fuel l [] hp lg1 hwf
+  rw [h] at this; exact this
+
+theorem eval_fold_eq (f : Val → Val → GoM Val) (g : Val → Val → Val) (hf : Total2 f g)
+    (e : LExpr) (x : Val) (hpure : e.Pure) (z : Val) (fuel : Nat)
+    (hfuel : e.bnd x + (e.denote x).length < fuel) (lg : Log) :
+    ∃ l hp lg1 hp' lg', LL.eval fuel e x {} lg = (.ok l, hp, lg1) ∧
+      LL.fold f fuel l z hp lg1 = (.ok ((e.denote x).foldl g z), hp', lg') ∧ hp'.maxEvals ≤ 1 := by
+  obtain ⟨l, hp, lg1, he, hR, hwf⟩ := eval_rep e x hpure fuel (by omega) lg
+  obtain ⟨hp', lg', h⟩ := list_fold_eq f g hf (heapRep_lsim _) hp l _ hR z fuel hfuel lg1
+  refine ⟨l, hp, lg1, hp', lg', he, h, WF.maxEvals_le _ ?_⟩
+  have := pres_fold f fuel l z hp lg1 hwf
+  rw [h] at this; exact this
+
+/-- `list.FoldTry(e, z, f)`: the reference fold; on a failure the cursor rests on the failing
+    element — the cells behind it have not been forced by the loop. -/
+theorem eval_foldTry_eq (f : Val → Val → GoM (Try Val)) (g : Val → Val → Try Val) (hf : Total2 f g)
+    (e : LExpr) (x : Val) (hpure : e.Pure) (z : Val) (fuel : Nat)
+    (hfuel : e.bnd x + (e.denote x).length < fuel) (lg : Log) :
+    ∃ l hp lg1 hp' lg', LL.eval fuel e x {} lg = (.ok l, hp, lg1) ∧
+      LL.foldTry f fuel l z hp lg1 = (.ok (foldTryL g z (e.denote x)).1, hp', lg') ∧ hp'.maxEvals ≤ 1 ∧
+      ((foldTryL g z (e.denote x)).1.isSuccess = false →
+        ∃ l' a, HeapRep (e.bnd x) hp' l' (a :: (foldTryL g z (e.denote x)).2)) := by
+  obtain ⟨l, hp, lg1, he, hR, hwf⟩ := eval_rep e x hpure fuel (by omega) lg
+  obtain ⟨hp', lg', h, hrest⟩ := list_foldTry_eq f g hf (heapRep_lsim _) hp l _ hR z fuel hfuel lg1
+  refine ⟨l, hp, lg1, hp', lg', he, h, WF.maxEvals_le _ ?_, hrest⟩
+  have := pres_foldTry f fuel l z hp lg1 hwf
+  rw [h] at this; exact this
+
+theorem eval_foldOption_eq (f : Val → Val → GoM (Option Val)) (g : Val → Val → Option Val) (hf : Total2 f g)
+    (e : LExpr) (x : Val) (hpure : e.Pure) (z : Val) (fuel : Nat)
+    (hfuel : e.bnd x + (e.denote x).length < fuel) (lg : Log) :
+    ∃ l hp lg1 hp' lg', LL.eval fuel e x {} lg = (.ok l, hp, lg1) ∧
+      LL.foldOption f fuel l z hp lg1 = (.ok (foldOptionL g z (e.denote x)).1, hp', lg') ∧ hp'.maxEvals ≤ 1 ∧
+      ((foldOptionL g z (e.denote x)).1 = none →
+        ∃ l' a, HeapRep (e.bnd x) hp' l' (a :: (foldOptionL g z (e.denote x)).2)) := by
+  obtain ⟨l, hp, lg1, he, hR, hwf⟩ := eval_rep e x hpure fuel (by omega) lg
+  obtain ⟨hp', lg', h, hrest⟩ := list_foldOption_eq f g hf (heapRep_lsim _) hp l _ hR z fuel hfuel lg1
+  refine ⟨l, hp, lg1, hp', lg', he, h, WF.maxEvals_le _ ?_, hrest⟩
+  have := pres_foldOption f fuel l z hp lg1 hwf
+  rw [h] at this; exact this
+
+theorem eval_foldError_eq (f : Val → GoM (Option Err)) (g : Val → Option Err) (hf : Total f g)
+    (e : LExpr) (x : Val) (hpure : e.Pure) (fuel : Nat)
+    (hfuel : e.bnd x + (e.denote x).length < fuel) (lg : Log) :
+    ∃ l hp lg1 hp' lg', LL.eval fuel e x {} lg = (.ok l, hp, lg1) ∧
+      LL.foldError f fuel l hp lg1 = (.ok (foldErrorL g (e.denote x)).1, hp', lg') ∧ hp'.maxEvals ≤ 1 ∧
+      ((foldErrorL g (e.denote x)).1.isSome = true →
+        ∃ l' a, HeapRep (e.bnd x) hp' l' (a :: (foldErrorL g (e.denote x)).2)) := by
+  obtain ⟨l, hp, lg1, he, hR, hwf⟩ := eval_rep e x hpure fuel (by omega) lg
+  obtain ⟨hp', lg', h, hrest⟩ := list_foldError_eq f g hf (heapRep_lsim _) hp l _ hR fuel hfuel lg1
+  refine ⟨l, hp, lg1, hp', lg', he, h, WF.maxEvals_le _ ?_, hrest⟩
+  have := pres_foldError f fuel l hp lg1 hwf
+  rw [h] at this; exact this
+
+theorem eval_foldRight_eq (f : Val → Val → GoM Val) (g : Val → Val → Val) (hf : Total2 f g)
+    (e : LExpr) (x : Val) (hpure : e.Pure) (zero : Val) (fuel : Nat)
+    (hfuel : e.bnd x + (e.denote x).length < fuel) (lg : Log) :
+    ∃ l hp lg1 hp' lg', LL.eval fuel e x {} lg = (.ok l, hp, lg1) ∧
+      LL.foldRight zero (fun a th => do let b ← th; IM.liftG (f a b)) fuel l hp lg1 =
+        (.ok ((e.denote x).foldr g zero), hp', lg') ∧ hp'.maxEvals ≤ 1 := by
+  obtain ⟨l, hp, lg1, he, hR, hwf⟩ := eval_rep e x hpure fuel (by omega) lg
+  obtain ⟨hp', lg', h⟩ := list_foldRight_eq f g hf (heapRep_lsim _) hp l _ hR zero fuel hfuel lg1
+  refine ⟨l, hp, lg1, hp', lg', he, h, WF.maxEvals_le _ ?_⟩
+  have := pres_foldRight f zero fuel l hp lg1 hwf
+  rw [h] at this; exact this
+
+theorem eval_reduce_eq (combine : Val → Val → GoM Val) (g : Val → Val → Val) (hf : Total2 combine g)
+    (e : LExpr) (x : Val) (hpure : e.Pure) (empty : Val) (fuel : Nat)
+    (hfuel : e.bnd x + (e.denote x).length < fuel) (lg : Log) :
+    ∃ l hp lg1 hp' lg', LL.eval fuel e x {} lg = (.ok l, hp, lg1) ∧
+      LL.reduce empty combine fuel l hp lg1 = (.ok ((e.denote x).foldr g empty), hp', lg') ∧ hp'.maxEvals ≤ 1 :=
+  eval_foldRight_eq combine g hf e x hpure empty fuel hfuel lg
+
+/-- `iterator.FromList(list)` over any representation satisfying the contract is an iterator that
+    represents the list (so every C12/C20 iterator theorem applies to lists, too). -/
+theorem fromList_represents {k : Nat} {R : Heap → LV → List Val → Prop} (hS : LSim k R) (fuel : Nat) (hk : k ≤ fuel)
+    (hp : Heap) (l : LV) (xs : List Val) (h : R hp l xs) :
+    Represents (LL.fromList fuel) (hp, l) [] xs := by
+  refine ⟨fun s _ r => R s.1 s.2 r, ⟨?_, ?_, ?_⟩, h⟩
+  · rintro ⟨hp, cur⟩ d r lg hR
+    obtain ⟨hp', lg', e, hR'⟩ := hS.isEmpty fuel hp cur r lg hk hR
+    exact ⟨(hp', cur), lg', by simp [LL.fromList, e, Except.map], hR'⟩
+  · rintro ⟨hp, cur⟩ d a r lg hR
+    obtain ⟨hp1, lg1, e1, hR1⟩ := hS.isEmpty fuel hp cur (a :: r) lg hk hR
+    obtain ⟨hp2, lg2, e2, hR2⟩ := hS.head fuel hp1 cur a r lg1 hk hR1
+    obtain ⟨t, hp3, lg3, e3, hR3⟩ := hS.tail fuel hp2 cur a r lg2 hk hR2
+    exact ⟨(hp3, t), lg3, by simp [LL.fromList, e1, e2, e3], hR3⟩
+  · rintro ⟨hp, cur⟩ d lg hR
+    obtain ⟨hp1, lg1, e1, hR1⟩ := hS.isEmpty fuel hp cur [] lg hk hR
+    exact ⟨nextOnEmpty, (hp1, cur), lg1, by simp [LL.fromList, e1], hR1⟩
+
+/-- … in particular `iterator.FromList(eval e)` represents `denote e`. -/
+theorem fromList_eval_represents (e : LExpr) (x : Val) (hpure : e.Pure) (fuel : Nat) (hfuel : e.bnd x ≤ fuel)
+    (lg : Log) : ∃ l hp lg', LL.eval fuel e x {} lg = (.ok l, hp, lg') ∧
+      Represents (LL.fromList fuel) (hp, l) [] (e.denote x) := by
+  obtain ⟨l, hp, lg', he, hR, _⟩ := eval_rep e x hpure fuel hfuel lg
+  exact ⟨l, hp, lg', he, fromList_represents (heapRep_lsim _) fuel hfuel hp l _ hR⟩
+
+/-! ## memoisation, end to end -/
+
+/-- a traversal that finds every cell it reads done (`Forced`) returns the list and does NOTHING
+    else: heap and log are unchanged — no closure is run, no callback invoked. -/
+theorem traversal_of_forced_is_free (xs : List Val) (l : LV) (acc : List Val) (fuel : Nat) (hp : Heap) (lg : Log)
+    (h : Forced hp xs l) (hfuel : xs.length + 3 ≤ fuel) :
+    LL.toSeq fuel l acc hp lg = (.ok (acc ++ xs), hp, lg) :=
+  toSeq_forced xs l acc fuel hp lg h hfuel
+
+/-- a traversal of a typed value leaves every cell it read done (and the done cells it found
+    untouched). -/
+theorem traversal_forces (xs : List Val) (S : Sty) (hp : Heap) (l : LV) (acc : List Val) (k fuel : Nat) (lg : Log)
+    (hW : WellTyped S hp) (hV : VDen S l (.fin xs) k) (hfuel : k + xs.length < fuel) :
+    ∃ S' hp' lg', LL.toSeq fuel l acc hp lg = (.ok (acc ++ xs), hp', lg') ∧ WellTyped S' hp' ∧ Ext S S' ∧
+      DoneSub hp hp' ∧ Forced hp' xs l :=
+  toSeq_forces xs S hp l acc k fuel lg hW hV hfuel
+
+/-- Traverse `eval e` twice (all constructors, any nesting): the first traversal returns
+    `denote e`; the second returns the same list and leaves heap AND log exactly as they were —
+    every closure ran during the first traversal and its callbacks are not invoked again. -/
+theorem eval_toSeq_twice (e : LExpr) (x : Val) (hpure : e.Pure) (fuel : Nat)
+    (hfuel : e.bnd x + (e.denote x).length < fuel) (lg : Log) :
+    ∃ l hp lg1 hp' lg', LL.eval fuel e x {} lg = (.ok l, hp, lg1) ∧
+      LL.toSeq fuel l [] hp lg1 = (.ok (e.denote x), hp', lg') ∧
+      LL.toSeq fuel l [] hp' lg' = (.ok (e.denote x), hp', lg') := by
+  obtain ⟨l, S, hp, lg1, he, hW, _, hV⟩ := eval_typed e x hpure _ _ WellTyped.empty fuel (by omega) lg
+  obtain ⟨S', hp', lg', h1, _, _, _, hF⟩ := toSeq_forces _ S hp l [] _ fuel lg1 hW hV hfuel
+  have hb := LExpr.bnd_ge3 e x
+  refine ⟨l, hp, lg1, hp', lg', he, by simpa using h1, ?_⟩
+  simpa using toSeq_forced _ l [] fuel hp' lg' hF (by omega)
+
+/-! ## callbacks that may panic (terminal folds) -/
+
+/-- `list.Fold` with a step that may panic (`Outcome2`: it returns or panics, whatever the log):
+    the loop returns what the list computation up to the first panic returns — the panic propagates
+    with its value — and the cursor rests on the element whose step panicked: its tail has not been
+    forced. -/
+theorem list_fold_panic (f : Val → Val → GoM Val) (g : Val → Val → Except PanicVal Val) (hf : Outcome2 f g)
+    {k : Nat} {R : Heap → LV → List Val → Prop}
+    (hS : LSim k R) (hp : Heap) (l : LV) (xs : List Val) (h : R hp l xs) (z : Val)
+    (fuel : Nat) (hfuel : k + xs.length < fuel) (lg : Log) :
+    ∃ hp' lg', LL.fold f fuel l z hp lg = ((foldE g z xs).1, hp', lg') ∧
+      (∀ p, (foldE g z xs).1 = .error p → ∃ l' a, R hp' l' (a :: (foldE g z xs).2)) :=
+  fold_lpspec hf hS xs fuel hp l z lg hfuel h
+
+theorem list_foldTry_panic (f : Val → Val → GoM (Try Val)) (g : Val → Val → Except PanicVal (Try Val))
+    (hf : Outcome2 f g) {k : Nat} {R : Heap → LV → List Val → Prop}
+    (hS : LSim k R) (hp : Heap) (l : LV) (xs : List Val) (h : R hp l xs) (z : Val)
+    (fuel : Nat) (hfuel : k + xs.length < fuel) (lg : Log) :
+    ∃ hp' lg', LL.foldTry f fuel l z hp lg = ((foldTryE g z xs).1, hp', lg') ∧
+      ((∀ z', (foldTryE g z xs).1 ≠ .ok (.success z')) → ∃ l' a, R hp' l' (a :: (foldTryE g z xs).2)) :=
+  foldTry_lpspec hf hS xs fuel hp l z lg hfuel h
+
+/-- end to end: `list.Fold(eval e, z, f)` with a panicking `f` (the callbacks INSIDE `e` do not
+    panic); also after the panic every memo cell has been started at most once. -/
+theorem eval_fold_panic (f : Val → Val → GoM Val) (g : Val → Val → Except PanicVal Val) (hf : Outcome2 f g)
+    (e : LExpr) (x : Val) (hpure : e.Pure) (z : Val) (fuel : Nat)
+    (hfuel : e.bnd x + (e.denote x).length < fuel) (lg : Log) :
+    ∃ l hp lg1 hp' lg', LL.eval fuel e x {} lg = (.ok l, hp, lg1) ∧
+      LL.fold f fuel l z hp lg1 = ((foldE g z (e.denote x)).1, hp', lg') ∧ hp'.maxEvals ≤ 1 ∧
+      (∀ p, (foldE g z (e.denote x)).1 = .error p →
+        ∃ l' a, HeapRep (e.bnd x) hp' l' (a :: (foldE g z (e.denote x)).2)) := by
+  obtain ⟨l, hp, lg1, he, hR, hwf⟩ := eval_rep e x hpure fuel (by omega) lg
+  obtain ⟨hp', lg', h, hrest⟩ := list_fold_panic f g hf (heapRep_lsim _) hp l _ hR z fuel hfuel lg1
+  refine ⟨l, hp, lg1, hp', lg', he, h, WF.maxEvals_le _ ?_, hrest⟩
+  have := pres_fold f fuel l z hp lg1 hwf
+  rw [h] at this; exact this
 
 end FpVerif.Spec.C12List
